@@ -19,19 +19,22 @@ package joiner
 //@ # bodies are not executed (their effect on *bytesRead is the assumed clause below).
 //@ func (*joiner).readAtOffset
 //@   property C07
-//@   requires bytesRead != nil && eg != nil && j.refLength > 0
+//@   requires bytesRead != nil && eg != nil && j.refLength > 0 && 0 <= deref(bytesRead) && deref(bytesRead) <= 1099511627776
+//@   requires well-formed-chunk: len(data) % j.refLength == 0 || subTrieSize <= len(data)
 //@   requires window: 0 <= bufferOffset && 0 <= bytesToRead && bufferOffset + bytesToRead <= len(b)
 //@   requires position: cur <= off && off - cur <= subTrieSize && 0 <= subTrieSize
 //@   let n0 = deref(bytesRead)
 //@   ensures counted: deref(bytesRead) >= n0
 //@   ensures assumed-counted-at-most: deref(bytesRead) <= n0 + bytesToRead
 //@   assigns elems(b[bufferOffset:bufferOffset+bytesToRead]), target(bytesRead), target(eg)
-//@   loop 1 invariant 0 <= bufferOffset && 0 <= bytesToRead && bufferOffset + bytesToRead <= len(b) && cur <= off && 0 <= cursor
+//@   loop 1 assigns target(eg), target(bytesRead), elems(b)
+//@   loop 1 invariant 0 <= bufferOffset && 0 <= bytesToRead && bufferOffset + bytesToRead <= len(b) && cur <= off && 0 <= cursor && cursor % j.refLength == 0
 //@   loop 1 invariant deref(bytesRead) >= n0
 
 //@ func (*joiner).ReadAt
 //@   property C07
-//@   requires 0 <= j.span && j.refLength > 0
+//@   note a negative offset is outside io.ReaderAt's contract (the code would slice with it); offsets are taken >= 0
+//@   requires 0 <= j.span && j.refLength > 0 && 0 <= off && (len(j.rootData) % j.refLength == 0 || j.span <= len(j.rootData))
 //@   ensures eof-at-or-past-end: off >= j.span ==> read == 0 && err != nil
 //@   ensures never-more-than-len: read <= len(buffer) && 0 <= read
 //@   ensures never-more-than-remaining: off < j.span && err == nil ==> read <= j.span - off
@@ -39,7 +42,7 @@ package joiner
 
 //@ func (*joiner).Read
 //@   property C07
-//@   requires 0 <= j.span && 0 <= j.off && j.refLength > 0
+//@   requires 0 <= j.span && 0 <= j.off && j.refLength > 0 && (len(j.rootData) % j.refLength == 0 || j.span <= len(j.rootData))
 //@   ensures advances-by-what-was-read: (err == nil || n > 0 || true) ==> (err == nil ==> j.off == old(j.off) + n)
 //@   ensures never-more-than-len: n <= len(b)
 
